@@ -160,6 +160,37 @@ def firstHopChan (d : FirstHopDetails) (src dst : Nat) (usable : Bool) : Option 
            htlcMax := max_htlc_from_capacity (first_hop_effective_capacity d) 0,
            cap := none, base := 0, prop := 0, cltv := 0, kind := .firstHop, alt := alt, unbounded := false }
 
+/-! ### get_route: booking of selected paths in `used_liquidities` (after update_value_and_recompute_fees), over the TRANSLATED
+    `add_entry_amounts`, `contributes_sufficient_value`, `spent_on_hop_msat`, `book_used_liquidity` (Generated/RouterFirstHop.lean).
+    Not executed by the driver (the statements live inside get_route); Props/C16 proves the aggregate bound over them. -/
+
+/-- one selected path as seen from ONE candidate hop: the fees of the following hops and their value contribution when
+    add_entry! admitted the hop (`fee`, `nvc`), the minimal contribution, and what the path was finally built with: value
+    contribution `w` and following fees `fee'` after update_value_and_recompute_fees -/
+structure Sel where
+  fee : Nat
+  nvc : Nat
+  minimal : Nat
+  w : Nat
+  fee' : Nat
+
+/-- the selected path was admitted by the translated add_entry! statements against the CURRENT used_liquidities entry, and was
+    not built with more than it was admitted for -/
+def Sel.ok (hmax : Nat) (used : Option Nat) (s : Sel) : Prop :=
+  ∃ v a, add_entry_amounts hmax s.fee (used.getD 0) s.nvc = some (v, a) ∧ contributes_sufficient_value v s.minimal = true ∧
+    0 < s.minimal ∧ s.w ≤ v ∧ s.fee' ≤ s.fee
+
+/-- the entry after booking a list of selected paths, one after the other (translated `spent_on_hop_msat`, `book_used_liquidity`) -/
+def bookAll : Option Nat → List Sel → Option Nat
+  | u, [] => u
+  | u, s :: t => bookAll (some (book_used_liquidity u (spent_on_hop_msat s.w s.fee'))) t
+
+/-- every path of the list was admitted against the entry as the paths before it left it -/
+inductive AllOK (hmax : Nat) : Option Nat → List Sel → Prop
+  | nil (u : Option Nat) : AllOK hmax u []
+  | cons (u : Option Nat) (s : Sel) (t : List Sel) : s.ok hmax u →
+      AllOK hmax (some (book_used_liquidity u (spent_on_hop_msat s.w s.fee'))) t → AllOK hmax u (s :: t)
+
 /-- amount of the HTLC over the first hop of a (sub)path: `fee_msat`s from there to the end -/
 def pathAmount : RPath → Nat
   | [] => 0
